@@ -313,6 +313,37 @@ def check_reader_vs_encoder(acc: core.Acc, spec) -> None:
     acc.evaluations += 1
 
 
+def check_explicit_version(acc: core.Acc, spec) -> None:
+    """The constructor's second argument (the version the caller expects, here the file's own): same views, lossless save."""
+    spec = tuple(spec)
+    case = {'input': list(spec), 'history': [], 'explicit_version': True}
+    lay = 'sample' if spec[0] != 'synth' else spec[1] if spec[1] in ('chaos', 'vitamin') else 'std'
+    obs0 = reference(spec)['obs']
+    acc.evaluations += 1
+    try:
+        ver = B.BSP(input_path(spec)).version
+        if not isinstance(ver, B.VERSIONS):
+            acc.count('explicit_version_skipped_unknown_version')
+            return
+        bsp = B.BSP(input_path(spec), ver)
+        obs = G.observe(bsp)
+        out = os.path.join(scratch_dir(), 'explicit_version.bsp')
+        with G.quiet():
+            bsp.save(out)
+        obs2 = G.observe(B.BSP(out, ver))
+    except Exception as exc:  # noqa: BLE001
+        acc.fail('explicit_version_raises', case, f'input={input_name(spec)}: BSP(path, {ver if "ver" in dir() else "?"}) / views / save raised {type(exc).__name__}: {exc}',
+                 layout_class=lay, exc=type(exc).__name__)
+        return
+    for stage, o in (('opened with the expected version given', obs), ('saved and re-read with the expected version given', obs2)):
+        for name in G.OBSERVE_ORDER + ['texdata', 'extras']:
+            diff = G.first_diff(obs0.get(name), o.get(name), name)
+            if diff:
+                acc.fail('view_changed', case, f'input={input_name(spec)} {stage} ({ver}): differs from the plain open at {diff}',
+                         layout_class=lay, view=name, field=strip_idx(diff.split(':')[0]))
+                return
+
+
 # ---------------------------------------------------------------------------------------------------------
 # footprint monitor (evidence + search order)
 
@@ -411,6 +442,7 @@ def shard(spec) -> core.Acc:
         acc.sample({'input': list(inp), 'history': list(histories[0])}, 1)
     elif kind == 'pre':
         check_reader_vs_encoder(acc, spec[1])
+        check_explicit_version(acc, spec[1])
     elif kind == 'unreadable':
         check_unreadable_view(acc, spec[1], spec[2])
     return acc
@@ -604,7 +636,9 @@ def replay(case: dict) -> list:
         return [f for f in acc.all_failures() if f.case.get('history') == case.get('history')]
     spec = tuple(case['input'])
     try:
-        if case.get('open_only'):
+        if case.get('explicit_version'):
+            check_explicit_version(acc, spec)
+        elif case.get('open_only'):
             try:
                 _REF.pop(spec, None)
                 reference(spec)
